@@ -2,7 +2,8 @@ SPEC = dict(
     claimed=True,
     title='A stalled never-stop fan is noticed and pushed within a bounded time',
     props_file='Props/C10.v', props_mod='Props.C10',
-    proof_files=['Proofs/Rescale.v', 'Proofs/Ctrl.v', 'Proofs/CtrlC10.v', 'Drv/CtrlC10.v'],
+    props_extra=[('Props/C10Decay.v', 'Props.C10Decay')],
+    proof_files=['Proofs/Rescale.v', 'Proofs/Ctrl.v', 'Proofs/CtrlC10.v', 'Proofs/Decay.v', 'Proofs/CtrlC10Decay.v', 'Drv/CtrlC10.v'],
     tie_vo=['Proofs/LeafTie.vo'],
     drivers=[dict(name='ctrl', drv_mod='Drv.CtrlC10', drv_file='Drv/CtrlC10.v', shard=100,
                   args={'quick': ['n=600', 'modes=stall,stall,random,const'], 'thorough': ['n=12000']}, timeout={'quick': 900, 'thorough': 6000})],
@@ -13,7 +14,7 @@ SPEC = dict(
     assumptions=['PWM map non-empty with strictly increasing keys (pm_ok); 0 <= min <= max <= 255', 'outputs of the PWM map are never -1'],
     trusted_base=['Print Assumptions: FloatAxioms.Leibniz.eqb_spec (stdlib axiom, used to lift the computed exactness of float64(max)-float64(min) on 0..255) and the kernel float/int63 primitives; no other axiom', 'hand-written model Model/Controller.v of calculateTargetPwm / ensureNoThirdPartyIsMessingWithUs / trySetManualPwm / setPwm / measureRpm, Model/Fan.v, Model/ControlLoop.v: agreement with the Go code is observed bit-exactly on the generated histories (driver ctrl), not proved', 'one control cycle is atomic in the model; interference during a cycle is represented by interference just before or just after it', 'the curve is a stub SpeedCurve in the driver (real curves: C06/C07); the PID clock is virtual (overlay rewrite of time.Now in util/pid.go)', 'gen/Consts.v regenerated from the source: clamp bounds, rescale divisor, stall threshold, post-raise average'],
     finding_codes={}, finding_text={},
-    level_text='C10_stall_cycle (any fan kind, algorithm, state: a cycle that would repeat the request while the RPM average is below 1 raises by one step or, at maximum, reports ErrFanStalledAtMaxPwm), C10_no_false_stall, C10_file_cmd_one_poll (file/cmd fans: one poll of 0 RPM arms the test), C10_hwmon_keeps_raising (after a raise one more poll of 0 re-arms it; window sizes 1..1000 by computation), C10_hwmon_poll; the geometric-decay bound for the first detection on hwmon fans is Props/C10Decay.v when present (otherwise that clause is exploration: the observer checks the per-poll decay factor (1-1/(2n)) on the real controller). The observer judges the real controller: a cycle with average < 1 must change the request (raise or stall error), raises are +1 below the maximum, stall errors only at the maximum.',
+    level_text='C10_stall_cycle (any fan kind, algorithm, state: a cycle that would repeat the request while the RPM average is below 1 raises by one step or, at maximum, reports ErrFanStalledAtMaxPwm), C10_no_false_stall, C10_file_cmd_one_poll (file/cmd fans: one poll of 0 RPM arms the test), C10_hwmon_keeps_raising (after a raise one more poll of 0 re-arms it; window sizes 1..1000 by computation), C10_hwmon_poll; C10_hwmon_detect_bound (Props/C10Decay.v): for every hwmon fan whose RPM average is any finite binary64 value in [0,A], every window n in 1..65536, after 2n(log2_up A + 1) polls of 0 RPM (and any larger number) the stall test is armed — proved for all floats through Flocq (geometric decay by 1-1/(2n) per poll). The observer judges the real controller: a cycle with average < 1 must change the request (raise or stall error), raises are +1 below the maximum, stall errors only at the maximum.',
     level_note='trusted: Coq kernel + FloatAxioms.Leibniz.eqb_spec; hand-written controller model tied to the code by the differential ctrl driver (bit-exact agreement observed, not proved); atomic cycles',
     design_ref='DESIGN.md section 5 C10',
 )
